@@ -78,9 +78,9 @@ fn do_write(log: &mut Log, d: &str, recs: &[Rec], quoted: bool) -> Option<Vec<u8
     out
 }
 
-fn read_items<R: std::io::Read>(rd: &mut Reader<R>) -> Vec<Value> {
+fn items_of<E, I: Iterator<Item = Result<Record, E>>>(it: I) -> Vec<Value> {
     let mut items = vec![];
-    for res in rd.records() {
+    for res in it {
         match res {
             Ok(rec) => {
                 let ph: Option<u8> = rec.phase().clone().try_into().unwrap();
@@ -101,6 +101,10 @@ fn read_items<R: std::io::Read>(rd: &mut Reader<R>) -> Vec<Value> {
         }
     }
     items
+}
+
+fn read_items<R: std::io::Read>(rd: &mut Reader<R>) -> Vec<Value> {
+    items_of(rd.records())
 }
 
 fn do_read(log: &mut Log, d: &str, data: &[u8], mode: &str, fault: &str) {
@@ -273,6 +277,174 @@ pub fn drive(log: &mut Log) {
             None => continue,
         };
         do_read(log, d, &data, "rt", "none");
+    }
+
+    // (a6) the Record API: records built through the `_mut` accessors assigned twice (last wins),
+    // attribute insertion order, copied mid-history (clone, clone_from into a used record, Default);
+    // every accessor is judged (score() / strand() / phase / attributes with value ORDER and
+    // get() = first value); then written, and records() consumed through count / last / nth / skip
+    for _ in 0..log.opts.n(120, 1200) {
+        case += 1;
+        if !log.mine(case) {
+            continue;
+        }
+        let mut rng = Rng::new(seed, 135, case);
+        let d = DIALECTS[(case % 3) as usize];
+        if !log.begin("api", json!({"dialect": d})) {
+            continue;
+        }
+        let n = rng.range(2, 4) as usize;
+        let mut recs: Vec<Rec> = (0..n).map(|_| rand_rec(&mut rng, d, log)).collect();
+        // numeric scores in several spellings: score() is the number
+        for r in recs.iter_mut() {
+            if rng.chance(1, 3) {
+                r.score = rng.pick(&[&b"50"[..], b"007", b"+5", b"0", b"18446744073709551615", b"18446744073709551616", b"1e3", b"-1"]).to_vec();
+                log.oblige("gff_score_accessor_numeric");
+            }
+        }
+        let mut built: Vec<Record> = vec![];
+        for r in recs.iter() {
+            let how = *rng.pick(&["twice", "clone", "clone_from", "default"]);
+            let junk = rand_rec(&mut rng, d, log);
+            let mut x = Record::new();
+            log.call("accessors", json!({"rec": rec_json(r), "how": how}), || {
+                x = match how {
+                    "twice" => {
+                        let mut y = to_record(&junk);
+                        *y.seqname_mut() = s(&r.seqname);
+                        *y.source_mut() = s(&r.source);
+                        *y.feature_type_mut() = s(&r.ftype);
+                        *y.start_mut() = r.start;
+                        *y.end_mut() = r.end;
+                        *y.score_mut() = s(&r.score);
+                        *y.strand_mut() = s(&r.strand);
+                        *y.phase_mut() = if r.phase < 0 { Phase::from(None) } else { Phase::from(Some(r.phase as u8)) };
+                        y.attributes_mut().clear();
+                        for (k, vs) in &r.attrs {
+                            for v in vs {
+                                y.attributes_mut().insert(s(k), s(v));
+                            }
+                        }
+                        y
+                    }
+                    "clone" => {
+                        // copy after the first value of every key, finish the copy, spoil the original
+                        let mut y = to_record(r);
+                        y.attributes_mut().clear();
+                        for (k, vs) in &r.attrs {
+                            y.attributes_mut().insert(s(k), s(&vs[0]));
+                        }
+                        let mut c = y.clone();
+                        y.attributes_mut().insert("spoiled".to_owned(), "x".to_owned());
+                        *y.end_mut() = 1;
+                        for (k, vs) in &r.attrs {
+                            for v in vs[1..].iter() {
+                                c.attributes_mut().insert(s(k), s(v));
+                            }
+                        }
+                        c
+                    }
+                    "clone_from" => {
+                        let mut used = to_record(&junk);
+                        used.attributes_mut().insert("longer".to_owned(), "x".to_owned());
+                        used.clone_from(&to_record(r));
+                        used
+                    }
+                    _ => {
+                        let mut y = Record::default();
+                        *y.seqname_mut() = s(&r.seqname);
+                        *y.source_mut() = s(&r.source);
+                        *y.feature_type_mut() = s(&r.ftype);
+                        *y.start_mut() = r.start;
+                        *y.end_mut() = r.end;
+                        *y.score_mut() = s(&r.score);
+                        *y.strand_mut() = s(&r.strand);
+                        *y.phase_mut() = if r.phase < 0 { Phase::from(None) } else { Phase::from(r.phase as u8) };
+                        for (k, vs) in &r.attrs {
+                            y.attributes_mut().insert_many(s(k), vs.iter().map(|v| s(v)).collect::<Vec<String>>());
+                        }
+                        y
+                    }
+                };
+                let ph: Option<u8> = x.phase().clone().try_into().unwrap();
+                let attrs: Vec<Value> = x
+                    .attributes()
+                    .iter_all()
+                    .map(|(k, vs)| json!([bytes(k.as_bytes()), Value::Array(vs.iter().map(|v| bytes(v.as_bytes())).collect())]))
+                    .collect();
+                let first: Vec<Value> = x
+                    .attributes()
+                    .keys()
+                    .map(|k| json!([bytes(k.as_bytes()), bytes(x.attributes().get(k).unwrap().as_bytes())]))
+                    .collect();
+                let score = match x.score() {
+                    Some(v) => json!({"some": 1, "v": dec(v)}),
+                    None => json!({"some": 0, "v": []}),
+                };
+                let strand = match x.strand() {
+                    Some(bio_types::strand::Strand::Forward) => 1,
+                    Some(bio_types::strand::Strand::Reverse) => -1,
+                    Some(bio_types::strand::Strand::Unknown) => 2,
+                    None => 0,
+                };
+                json!({"seqname": bytes(x.seqname().as_bytes()), "source": bytes(x.source().as_bytes()),
+                    "ftype": bytes(x.feature_type().as_bytes()), "start": dec(*x.start()), "end": dec(*x.end()),
+                    "rawscore": bytes(rec_score(&x).as_bytes()), "rawstrand": bytes(rec_strand(&x).as_bytes()),
+                    "score": score, "strand": strand, "phase": ph.map(|p| p as i64).unwrap_or(-1),
+                    "attrs": Value::Array(attrs), "first": Value::Array(first),
+                    "eq_rebuilt": (x == to_record(r)) as u8})
+            });
+            built.push(x);
+            log.oblige(match how {
+                "twice" => "gff_setter_twice",
+                "clone" => "gff_record_clone_mid_history",
+                "clone_from" => "gff_record_clone_from",
+                _ => "gff_record_default",
+            });
+        }
+        let mut data: Vec<u8> = vec![];
+        log.call("write", json!({"recs": Value::Array(recs.iter().map(rec_json).collect()), "q": 0}), || {
+            let mut errs = 0;
+            {
+                let mut w = Writer::new(&mut data, gtype(d));
+                for r in built.iter() {
+                    if w.write(r).is_err() {
+                        errs += 1;
+                    }
+                }
+            }
+            json!({"bytes": bytes(&data), "errs": errs})
+        });
+        do_read(log, d, &data, "exact", "none");
+        for via in ["count", "last", "nth", "skip"].iter() {
+            let j = rng.below(n as u64 + 1) as usize;
+            let mut a = mode_json("via", &data, via);
+            a["via"] = json!(via);
+            a["j"] = json!(j);
+            log.call("read_via", a, || {
+                let mut rd = Reader::new(&data[..], gtype(d));
+                let one = |x| {
+                    let mut rd1 = vec![x];
+                    items_of(rd1.drain(..))
+                };
+                match *via {
+                    "count" => json!({"n": rd.records().count(), "recs": []}),
+                    "last" => match rd.records().last() {
+                        Some(x) => json!({"n": 1, "recs": one(x)}),
+                        None => json!({"n": 0, "recs": []}),
+                    },
+                    "nth" => match rd.records().nth(j) {
+                        Some(x) => json!({"n": 1, "recs": one(x)}),
+                        None => json!({"n": 0, "recs": []}),
+                    },
+                    _ => {
+                        let v = items_of(rd.records().skip(j));
+                        json!({"n": v.len(), "recs": v})
+                    }
+                }
+            });
+        }
+        log.oblige("records_iterator_adaptors");
     }
 
     // (a4) comment lines with arbitrary content (TAB, unbalanced double quotes, `##gff-version 3`,
